@@ -13,6 +13,7 @@ import json
 import os
 import shutil
 
+import searchmc
 import vlib
 from vlib import ToolError, log
 
@@ -79,6 +80,7 @@ def _audit(prop, exe, work, args, tag, R):
 def run(prop, tier, seed):
     T = TIERS[tier][prop]
     R = vlib.Result(prop, tier, seed)
+    searchmc.run(prop, tier, R, regression=(prop == "C06"))
     exe = vlib.build_harness()
     work = vlib.workdir("search_" + prop)
     try:
